@@ -154,7 +154,7 @@ func NewEngine(p *Program, pkgPath, harness string, opts Options) (*Engine, erro
 		e.Opts.MaxSteps = 20_000_000
 	}
 	if e.Opts.TimeoutMs == 0 {
-		e.Opts.TimeoutMs = 20000
+		e.Opts.TimeoutMs = 60000
 	}
 	return e, nil
 }
